@@ -542,6 +542,15 @@ func (e *Encoder) block(b *ssa.BasicBlock) {
 				env := e.envAt(st, b, nil)
 				// entered(j): the header of loop j was reached in the iteration that ends here (the loop body is
 				// encoded once, from the havoc'd head: the header's path condition is this iteration's)
+				// athead(x): the value the loop variable x had at the head of the iteration that ends here
+				env.athead = func(name string) (Val, bool) {
+					for phi, v := range li.phiVal {
+						if phi.Comment == name {
+							return v, true
+						}
+					}
+					return Val{}, false
+				}
 				env.entered = func(j int) (string, bool) {
 					for _, lj := range e.loops {
 						if lj != nil && lj.ord == j && li.body[lj.header] {
@@ -713,6 +722,10 @@ func (e *Encoder) loopHeader(li *loopInfo, b *ssa.BasicBlock, st *State, pc stri
 		}
 		v := e.freshVal("loop_"+sanitize(phi.Comment), phi.Type())
 		e.vals[phi] = v
+		if li.phiVal == nil {
+			li.phiVal = map[*ssa.Phi]Val{}
+		}
+		li.phiVal[phi] = v // (athead(x) at the back edges)
 		e.assumeWT(v, pc, st)
 	}
 	if li.spec != nil {
